@@ -31,3 +31,6 @@ Definition is_superset_tree (s : shape) (d : json) : bool :=
 (* lib.rs:124-128 *)
 Definition is_superset_checked_tree (s : shape) (d : json) : outcome ierr bool :=
   obind (infer_text d) (fun sd => Ok (is_subset sd s)).
+
+(* serde/impls.rs:3-21 : JsonVisitor keeps the value and the shape computed from it *)
+Definition visitor_tree (d : json) : json * outcome ierr shape := (d, infer_value d).
